@@ -13,6 +13,7 @@
 -/
 import CC.Drv.Common
 import CC.Simd.Impl
+import CC.Simd.Impl.Eq
 import CC.X86.Intrin
 namespace CC.Drv.Simd
 open CC CC.Simd
@@ -123,8 +124,24 @@ def runOp {n m : Nat} (V : VOps n m) (cnt : Nat) (b : Backend) (o : OpK) (args :
     | some [a] => joinComma ((implToScalars b a).map hexOfVec)
     | _ => "bad-op"
 
+/-- `simd <backend> <type> eq <a> <b>`: the `==` of the Rust type the backend uses for `<type>` (one of the ten vector
+    types or `vec128_storage` / `vec256_storage` / `vec512_storage`); `unsupported` where that type has no `PartialEq` -/
+def eqStep (bname tname : String) (args : List String) : String :=
+  match Backend.ofName bname, EqTy.ofName tname with
+  | some b, some t =>
+    match veq b t with
+    | none => "unsupported"
+    | some f =>
+      match args with
+      | [x, y] => match vecOfHex t.bits x, vecOfHex t.bits y with
+        | some x, some y => toString (f x y)
+        | _, _ => "bad-op"
+      | _ => "bad-op"
+  | _, _ => "bad-op"
+
 def simdStep (toks : List String) : String :=
   match toks with
+  | bname :: tname :: "eq" :: args => eqStep bname tname args
   | bname :: tname :: oname :: args =>
     match Backend.ofName bname, Ty.ofName tname, opOfName oname with
     | some b, some τ, some o =>
@@ -173,6 +190,16 @@ def intrinStep (name : String) (args : List String) : String :=
   | "_mm_xor_si128" => vv _mm_xor_si128
   | "_mm_andnot_si128" => vv _mm_andnot_si128
   | "_mm_shuffle_epi8" => vv _mm_shuffle_epi8
+  | "_mm_cmpeq_epi8" => vv _mm_cmpeq_epi8
+  | "_mm_cmpeq_epi16" => vv _mm_cmpeq_epi16
+  | "_mm_cmpeq_epi32" => vv _mm_cmpeq_epi32
+  | "_mm_cmpeq_epi64" => vv _mm_cmpeq_epi64
+  | "_mm_movemask_epi8" =>
+    match args with
+    | [x] => match v x with
+      | some x => hexOfVec (_mm_movemask_epi8 x)
+      | none => "bad-op"
+    | _ => "bad-op"
   | "_mm_unpacklo_epi8" => vv _mm_unpacklo_epi8
   | "_mm_unpackhi_epi8" => vv _mm_unpackhi_epi8
   | "_mm_packus_epi16" => vv _mm_packus_epi16
